@@ -12,6 +12,18 @@ CHECKS = {
    technique="explicit-state model checking (stateright, exhaustive bounded enumeration of inputs on the real tokenizer, invariant on every state)",
    text="Every string over a trigger alphabet (one symbol per shortcut in the normalisation / lattice / plugin code) up to the stated length, in five fabricated worlds and modes A/B/C, is tokenized by the real code and the partition / lossless-surface invariant is evaluated on every state, including on-demand splits. Exhaustive within the bound; says nothing beyond the alphabet and length bound.",
    ref="DESIGN.md §3 C01"),
+ "C03": dict(
+   technique="explicit-state model checking (stateright): exhaustive enumeration of all Unicode scalars in contexts, bounded strings and generated length-boundary families on the real tokenizer built with debug assertions and overflow checks",
+   text="Every Unicode scalar value (alone and in contexts), every string of the C01 trees, complete generated families around the 49,149 / 65,535 byte limits and cost extremes are tokenized by the real code with assertions on; panics, wrong Ok/Err verdicts (predicted by arithmetic) and unsafe accessors are violations. Exhaustive within those families; allocation failure and stack exhaustion are out of reach.",
+   ref="DESIGN.md §3 C03"),
+ "C07": dict(
+   technique="explicit-state model checking (stateright): all 1,112,064 scalars in context and all bounded strings through the real input-text plugins, compared state by state with a reference normaliser",
+   text="The real DefaultInputText / ProlongedSoundMark / IgnoreYomigana plugins are run on every scalar value in several contexts (forcing both code paths) and on every string up to the bound over a trigger alphabet under four rewrite tables (prefix keys, multi-character keys and values, exempt characters), each table loaded twice; every result must equal the reference function written from the statement.",
+   ref="DESIGN.md §3 C07"),
+ "C08": dict(
+   technique="explicit-state model checking (stateright BFS with canonical-state de-duplication) over histories of edit batches on the real InputBuffer, plus bounded string enumeration on the real tokenizer",
+   text="Every history of up to `depth` edit batches (all single replacements and all ordered non-overlapping pairs, by empty/shorter/longer/multi-byte strings) from every short original string is applied to the real InputBuffer; monotonicity, anchoring, boundary preservation, identity on unreplaced characters and the char/byte tables after build() are checked on every reachable state; begin_c/end_c are checked on the C01 string trees.",
+   ref="DESIGN.md §3 C08"),
 }
 
 NOT_YET = {}
